@@ -347,7 +347,7 @@ def main(chk):
                 'evaluated on the implementation where events lie inside GTIs; header keywords through write_fits (with/without on-orbit '
                 'calibration rows); real simulations on synthetic GTIs. non-trivial = ≥ 2 GTIs and ≥ 2 events')
     chk.assumptions = TRUSTED
-    chk.lean(['IxpeVerif.Props.C05', 'IxpeVerif.Props.Audit.C05'], ['fill_livetime', 'total_good_time'])
+    chk.lean(['IxpeVerif.Props.C05', 'IxpeVerif.Props.Audit.C05'], ['fill_livetime', 'total_good_time', 'skel_finalize'])
     n = 300 if chk.tier == 'quick' else 5000
     run_cases(chk, n, 'C05-corr')
     file_level(chk, 12 if chk.tier == 'quick' else 150, 'C05-file')
